@@ -109,7 +109,7 @@ Fixpoint remove_n (x : N) (l : list N) : list N :=
   end.
 Definition set_of (l : list N) : list N := fold_left (fun acc x => ins_sorted x acc) l [].
 
-Fixpoint set_nth {A : Type} (i : nat) (v : A) (l : list A) : list A :=
+Fixpoint set_nth {A : Type} (i : nat) (v : A) (l : list A) {struct l} : list A :=
   match l with
   | [] => []
   | y :: r => match i with O => v :: r | S j => y :: set_nth j v r end
